@@ -641,6 +641,102 @@ func srvXClientCheck(o *common.Out, id, abstract string, rig *srvRig, reqs []sre
 	}
 }
 
+// Asynchronous response writes (server.WithAsyncWrite, with and without a worker pool): the write of a response is
+// handed to another goroutine.  The transport takes the bytes of response 1 late - after response 2 has been
+// computed and encoded: each request is still answered exactly once with its own result.  case: async|<pool>|<style>
+func srvAsyncWrite(o *common.Out, id string, pool bool, style string) {
+	abstract := fmt.Sprintf("async|%v|%s", pool, style)
+	o.Begin(id, abstract)
+	prev := runtime.GOMAXPROCS(1) // one P: the frame-buffer pool hands the buffer put last to the next encoder
+	defer runtime.GOMAXPROCS(prev)
+	opts := []server.OptionFn{server.WithAsyncWrite()}
+	if pool {
+		opts = append(opts, server.WithPool(4, 64))
+	}
+	rig := newSrvRig(true, opts...)
+	var hc *holdConn
+	rig.ln.wrap = func(c net.Conn) net.Conn { hc = newHoldConn(c); return hc }
+	rig.start()
+	defer rig.stop()
+	peer, err := rig.connect()
+	if err != nil {
+		o.Fail(id, "rig", err.Error(), abstract)
+		return
+	}
+	defer peer.close()
+	fail := func(sig, d string) { o.Fail(id, sig, d, abstract) }
+	reqs := []sreqCase{{seq: 11, style: style, ser: 1, a: 3, b: 5, mode: "ok"}, {seq: 12, style: style, ser: 1, a: 7, b: 9, mode: "ok"},
+		{seq: 13, style: style, ser: 1, a: 2, b: 4, mode: "ok"}}
+	for rid, q := range reqs {
+		path, meth := q.pathMethod()
+		if err := peer.send(reqSpec{seq: q.seq, path: path, method: meth, ser: 1, payload: q.payload(rid),
+			meta: []refcodec.KV{{K: []byte("rid"), V: []byte(strconv.Itoa(rid))}}}); err != nil {
+			fail("connection-closed", err.Error())
+			return
+		}
+		select {
+		case <-rig.h.entered:
+		case <-time.After(3 * time.Second):
+			fail("no-handler", fmt.Sprintf("request %d never reached its handler", rid))
+			return
+		}
+	}
+	waitWrite := func(what string) bool {
+		select {
+		case <-hc.arrived:
+			return true
+		case <-time.After(3 * time.Second):
+			fail("no-response", what+": no write reached the transport")
+			return false
+		}
+	}
+	hc.hold(true)
+	// response 0 is computed and its write reaches the transport, which does not take the bytes yet
+	rig.h.release(0)
+	<-rig.h.finished
+	if !waitWrite("response 0") {
+		return
+	}
+	// responses 1 and 2 are computed and encoded meanwhile
+	for _, rid := range []int{1, 2} {
+		rig.h.release(rid)
+		<-rig.h.finished
+		if !waitWrite(fmt.Sprintf("response %d", rid)) {
+			return
+		}
+	}
+	hc.hold(false)
+	for i := 0; i < 3; i++ {
+		hc.release <- struct{}{}
+	}
+	seen := map[uint64]int{}
+	for i := 0; i < 3; i++ {
+		f := peer.next(3 * time.Second)
+		if f == nil {
+			fail("no-response", fmt.Sprintf("only %d of 3 responses arrived", i))
+			break
+		}
+		v := viewFrame(f)
+		seen[v.seq]++
+		rid := int(v.seq) - 11
+		if rid < 0 || rid > 2 {
+			fail("wrong-result", fmt.Sprintf("a response with sequence number %d, which no request carried: %s", v.seq, showView(v, nil, -1)))
+			continue
+		}
+		rp, ok := replyOf(v)
+		if v.status != "normal" || !ok || rp.Id != rid || rp.C != reqs[rid].a*reqs[rid].b {
+			fail("wrong-result", fmt.Sprintf("request %d (seq %d, %dx%d) answered with %s", rid, v.seq, reqs[rid].a, reqs[rid].b, showView(v, nil, -1)))
+		}
+	}
+	for rid := range reqs {
+		if n := seen[uint64(11+rid)]; n != 1 {
+			fail("response-count", fmt.Sprintf("request %d (seq %d) was answered %d times", rid, 11+rid, n))
+		}
+	}
+	o.ImplOnly(id, abstract, true)
+	o.Count("async-write-schedule")
+}
+
 func genSreq(prop string, r *common.Rand, nconn int) sreqCase {
 	q := sreqCase{conn: r.Intn(nconn), seq: uint64(r.Intn(6)), ser: 1, a: r.Intn(12), b: 1 + r.Intn(12), mode: "ok"}
 	if r.Chance(20) {
@@ -684,6 +780,11 @@ func genSreq(prop string, r *common.Rand, nconn int) sreqCase {
 }
 
 func runSrv(prop string, r *common.Rand, tier string, o *common.Out, replay string) {
+	if strings.HasPrefix(replay, "async|") {
+		p := strings.Split(replay, "|")
+		srvAsyncWrite(o, "replay", p[1] == "true", p[2])
+		return
+	}
 	if replay != "" {
 		p := strings.Split(replay, "|")
 		nconn, _ := strconv.Atoi(p[1])
@@ -730,6 +831,15 @@ func runSrv(prop string, r *common.Rand, tier string, o *common.Out, replay stri
 			}
 		}
 		runtime.GOMAXPROCS(prev)
+	}
+	if prop == "C04" {
+		k := 0
+		for _, pool := range []bool{false, true} {
+			for _, style := range []string{"method", "pooled", "func", "router"} {
+				k++
+				srvAsyncWrite(o, fmt.Sprintf("async%d", k), pool, style)
+			}
+		}
 	}
 	n := 260
 	if tier == "thorough" {
